@@ -72,7 +72,7 @@ PLANS["C07"] = {
     "rule": "random resize cases on the six alpha pixel types (transparent stripes, islands, borders, single pixels, all-zero, low alpha) "
             "with alpha handling on; each run three times per back-end: source A, source B = A with other colours under alpha = 0, and A "
             "with alpha handling off; relations (i) A==B results, (ii) zero alpha => zero colour, (iii) opaque source == alpha-off, "
-            "(iv) alpha channel == plain resampling, (v) non-alpha types unaffected, (vi) alpha-aware resize == multiply_alpha -> plain resize -> "
+            "(iv) alpha channel == plain resampling (alpha handling off), (vii) alpha channel == the alpha plane resized alone as a one-channel image of the same component type, (v) non-alpha types unaffected, (vi) alpha-aware resize == multiply_alpha -> plain resize -> "
             "divide_alpha bit for bit; non-trivial = source has both transparent and "
             "non-transparent pixels; geometries where dst size == integer crop (C12: exact copy) are excluded and counted",
     "assumptions": CONV_ASSUME + ["colours under zero alpha are finite (NaN*0 is NaN in any implementation)"],
@@ -80,8 +80,8 @@ PLANS["C07"] = {
     "thorough": [step("rel", "firv-core", 15000000, timeout=7200), step("asan", "firv-core", 400000, timeout=7200)],
 }
 FLOORS["C07"] = {"quick": [
-    (">= 10000 cases with partial transparency, >= 1000 opaque cases, >= 10^5 zero-alpha destination pixels, >= 10^5 composition checks",
-     lambda o: o["counters"]["cases_with_partial_transparency"] >= 10000 and o["counters"]["opaque_cases"] >= 1000 and o["counters"]["zero_alpha_dst_pixels"] >= 100000 and o["counters"]["composition_checks"] >= 100000),
+    (">= 10000 cases with partial transparency, >= 1000 opaque cases, >= 10^5 zero-alpha destination pixels, >= 10^5 composition checks, >= 10^5 alpha-plane checks",
+     lambda o: o["counters"]["cases_with_partial_transparency"] >= 10000 and o["counters"]["opaque_cases"] >= 1000 and o["counters"]["zero_alpha_dst_pixels"] >= 100000 and o["counters"]["composition_checks"] >= 100000 and o["counters"]["alpha_plane_checks"] >= 100000),
 ]}
 FLOORS["C07"]["thorough"] = FLOORS["C07"]["quick"]
 
